@@ -31,6 +31,8 @@ def run(eng: Engine, ck: Check):
     ru = eng.repo.find_func(USERM, f'{UTM}._request_untracking')      # may be written in place in the worker
     ck.visited(tt)
 
+    from . import defs as _defs_emit
+    _defs_emit.event_bus_emit_contains(eng, ck, 'R-C15-NOLOSS', 'the per-user worker awaits emit() when it reports a state; an escaping listener failure kills the worker and every reason it holds')
     # ---- R-C15-OWNERS
     n_add = n_rem = 0
     in_place_untrack: list = []
@@ -271,3 +273,5 @@ def sync_removed_any(rets, lookups, loc) -> bool:
     while an old worker's callback is still pending, i.e. once the window is closed
     by one of the two accepted mechanisms."""
     return bool(loc.get('sync_removed')) or lookups
+    from . import defs as _d15
+    _d15.enum_members_distinct(eng, ck, 'R-C15-EDGES', [('TrackingFlag', 'user/model.py'), ('TrackingState', 'user/model.py')], 'the reason set is a set of DIFFERENT reasons: dropping one must not drop another')
